@@ -13,6 +13,7 @@ wraps around in that type.
 * as found: `_sz` of `VariableSizedTiles.tile_shape` computed `a[i + 1]` with the numpy scalar.
 -/
 import OdcGeo.Model.C04
+import OdcGeo.Model.C04Roi
 namespace OdcGeo.C04
 open OdcGeo OdcGeo.C17 OdcGeo.NpArray
 
@@ -103,5 +104,44 @@ def vtileShapeAsFound (ch : List Int) (i : IntArg) : ResN Int :=
       let a ← liftN (npGet (offsets ch) j)
       return b - a
     else .error (.std .indexError)
+
+/-! ### numpy scalars inside a `BlockAssembler` window and at the `GeoboxTiles` entry points -/
+
+/-- a member of the `roi` tuple: an int (Python or numpy) or a slice -/
+inductive WinEl where
+  | int (i : IntArg)
+  | slc (a b : Option Int)
+  deriving DecidableEq, Repr
+
+def WinEl.isNp : WinEl → Bool
+  | .int (.np _ _) => true
+  | _ => false
+
+def WinEl.toPIdx : WinEl → PIdx
+  | .int i => .idx i.val
+  | .slc a b => .slc a b
+
+/-- `BlockAssembler._norm_roi(roi)` for a tuple that may hold numpy scalars: the padding / "too many
+index dimensions" test looks at the length only; `roi_normalise` then reaches `_norm_slice`, where
+a numpy scalar is not an `int` and has no `.start` (`AttributeError`) -/
+def normRoiNp (shape : List Int) (axis : Nat) (roi : List WinEl) : ResN (List NSlice × List Nat) :=
+  match padRoi shape axis (.tuple (roi.map WinEl.toPIdx)) with
+  | .error e => .error (.std e)
+  | .ok _ =>
+    if roi.any WinEl.isNp then .error .attribute
+    else liftN (normRoi shape axis (.tuple (roi.map WinEl.toPIdx)))
+
+/-- `GeoboxTiles.__getitem__` / `.roi[...]` / `pix_bbox` region lookup (both axes through `_norm_slice`) -/
+def gbtRegionI (t : Tiling2) (iy ix : IntArg) : ResN (NSlice × NSlice) :=
+  -- `roi_normalise` walks the whole index tuple before any region is looked up
+  match iy, ix with
+  | .py vy, .py vx => liftN (getItem2 t (.idx vy) (.idx vx))
+  | _, _ => .error .attribute
+
+/-- `GeoboxTiles.chunk_shape` = `tile_shape` (converts numpy integers) -/
+def gbtChunkShapeI (t : Tiling2) (iy ix : IntArg) : ResN (Int × Int) := do
+  let ny ← tileShapeI t.y iy
+  let nx ← tileShapeI t.x ix
+  return (ny, nx)
 
 end OdcGeo.C04
